@@ -83,6 +83,9 @@ def generate(run_seed: int, tier: str, *, faults: bool) -> dict:
     cat_vars = [v for v in vars_used if u["cols"][v]["kind"] in ("text_object", "text_default", "category")]
     num_vars = [v for v in vars_used if u["cols"][v]["kind"] in ("float", "int")]
 
+    f2 = None
+    if not structured and rng.random() < 0.35:
+        f2 = world.gen_formula(rng, u, rich=rich, structured_p=0.0, max_terms=2, force_ticked=False)
     ops: list[dict] = []
     handles = [{"id": 0, "kind": "root"}]
     nops = rng.randint(6, 22)
@@ -129,11 +132,20 @@ def generate(run_seed: int, tier: str, *, faults: bool) -> dict:
             if rng.random() < 0.15:
                 f_["allnull"] = True
             return f_
-        return {"kind": k, "var": rng.choice(cat_vars), "salt": rng.randrange(3), "level": rng.choice(["NEW", "zz", "a "])}
+        f_ = {"kind": k, "var": rng.choice(cat_vars), "salt": rng.randrange(3), "level": rng.choice(["NEW", "zz", "a ", "", "NEW", 0])}
+        if rng.random() < 0.2:
+            f_["level2"] = rng.choice([7, "east", -1.5])  # a second unseen value, possibly not comparable with the first
+        return f_
 
     for _ in range(nops):
         kind = core.weighted(rng, [("follow", 10), ("restart", 3), ("subset", 1 if not structured else 0), ("leaf", 1.5 if structured else 0),
-                                   ("refit", 1), ("fault", 5 if faults else 0)])
+                                   ("refit", 1), ("fault", 5 if faults else 0), ("combo", 1.2 if f2 is not None else 0)])
+        if kind == "combo":
+            h = rng.choice([x for x in handles if x["kind"] in ("root", "restart")])
+            new = {"id": len(handles), "kind": "combo", "of": h["id"]}
+            handles.append(new)
+            ops.append({"op": "combo", "h": h["id"], "new": new["id"]})
+            continue
         if kind in ("follow", "fault"):
             pool = handles if kind == "follow" else [h for h in handles if h["kind"] in ("root", "restart", "subset")]
             h = rng.choice(pool)
@@ -176,7 +188,15 @@ def generate(run_seed: int, tier: str, *, faults: bool) -> dict:
     for o in ops:
         if o["op"] == "follow" and rng.random() < 0.3:
             o["only_used_cols"] = True
-    return {"universe": u, "formula": f, "train": train, "dom": dom, "container": container, "train_keep": train_keep, "used_vars": used,
+    if f2 is not None:
+        used = list(dict.fromkeys(used + world.variables_of(f2)))
+        if train_keep is not None:
+            train_keep = used
+        dom = [i for i in dom if i in set(world.training_domain(u, f2, train))]
+        for o in ops:
+            if "ids" in o:
+                o["ids"] = [i for i in o["ids"] if i in set(dom)]
+    return {"universe": u, "formula": f, "formula2": f2, "train": train, "dom": dom, "container": container, "train_keep": train_keep, "used_vars": used,
             "train_index": core.weighted(rng, [("rid", 3), ("range", 2), ("str", 1)]), "opts": opts,
             "np_seed": rng.getrandbits(31), "ops": ops, "faults_enabled": faults}
 
@@ -421,6 +441,19 @@ def execute(scenario: dict, env: Any, *, prop: str) -> dict:
         log.append(["fit", arr_digest(c0)])
         if any(m["arr"].shape[0] == 0 for _, m in c0):
             bump(stats, "probes", "fit_dropped_every_row")
+        spec1 = None
+        if sc.get("formula2"):
+            try:
+                with warnings.catch_warnings():
+                    warnings.simplefilter("ignore")
+                    mm1 = model_matrix(world.spec_to_python(sc["formula2"]["spec"]), tframe, context=world.user_context(), **sc["opts"])
+                c1 = canon(mm1, Structured)
+                if any(m["arr"].dtype == object or not np.all(np.isfinite(m["arr"])) or m["arr"].shape[0] == 0 for _, m in c1):
+                    raise ArithmeticError("degenerate second fit")
+                spec1, names1 = mm1.model_spec, [m["names"] for _, m in c1]
+            except Exception:  # noqa: BLE001
+                spec1 = None
+                bump(stats, "extra", "degenerate_second_fit")
         faults_seen = 0
         last_touch: dict[int, list] = {}
 
@@ -535,6 +568,11 @@ def execute(scenario: dict, env: Any, *, prop: str) -> dict:
                         continue
                     rows = [j for j in cand if (ids[j] * 13 + fault.get("salt", 0)) % 3 == 0] or [cand[0]]
                     fl["rows"] = rows
+                    if sc["container"] == "arrow":
+                        # an arrow column holds one value type: the unseen level must be of the column's own type
+                        fl.pop("level2", None)
+                        numeric_levels = all(not isinstance(x, str) for x in u["cols"][fault["var"]]["levels"])
+                        fl["level"] = 99 if numeric_levels else (fl["level"] if isinstance(fl["level"], str) else "NEW")
                 data = frame(ids, op["index"], fl, recat=op.get("recat"))
                 faults_seen += 1
                 bump(stats, "faults", fault["kind"])
@@ -730,6 +768,21 @@ def execute(scenario: dict, env: Any, *, prop: str) -> dict:
                 sig.append(["subset", len(pick), len(terms)])
                 bump(stats, "faults", "restart:subset")
                 continue
+            if kind == "combo":
+                # specs from two SEPARATE fits put into one container by the caller and materialized jointly
+                if spec1 is None or not isinstance(h["spec"], ModelSpec):
+                    continue
+                try:
+                    combo = ModelSpecs(a=h["spec"], b=spec1)
+                    clone = pickle.loads(pickle.dumps(combo))
+                except Exception as e:  # noqa: BLE001
+                    raise Violation("c04:restart-failed", {"how": "ModelSpecs(a=spec, b=other spec) + pickle", "error": repr(e)[:300]})
+                handles[op["new"]] = {"spec": combo, "mm": None, "ref": Ref(clone, sc, Structured), "kind": "combo", "depth": h["depth"] + 1, "born": step,
+                                      "names": [h["names"][0], names1[0]], "shares_state_with": op["h"]}
+                last_touch[op["new"]] = ["restart"]
+                sig.append(["combo"])
+                bump(stats, "probes", "specs_of_two_fits_materialized_jointly")
+                continue
             if kind == "leaf":
                 if not isinstance(h["spec"], Structured):
                     continue
@@ -739,6 +792,18 @@ def execute(scenario: dict, env: Any, *, prop: str) -> dict:
                 handles[op["new"]] = {"spec": leaf, "mm": None, "ref": Ref(pickle.loads(pickle.dumps(leaf)), sc, Structured), "kind": "leaf",
                                       "depth": h["depth"] + 1, "born": step, "names": [names], "shares_state_with": op["h"]}
                 last_touch[op["new"]] = ["restart"]
+                if all(m["arr"].shape[0] == len(sc["train"]) for _, m in c0):
+                    # no training row was dropped, so the part's own spec on the training data must reproduce the part's matrix
+                    part0 = [m for p_, m in c0 if tuple(p_) == tuple(path)]
+                    with warnings.catch_warnings():
+                        warnings.simplefilter("ignore")
+                        try:
+                            alone = canon(leaf.get_model_matrix(tframe, context=world.user_context()), Structured)
+                        except Exception as e:  # noqa: BLE001
+                            raise Violation("c04:refit-raised", {"error": repr(e)[:300], "handle": "part of a structured spec used alone", "path": list(path)})
+                    if part0 and (alone[0][1]["names"] != part0[0]["names"] or not close(alone[0][1]["arr"], part0[0]["arr"])):
+                        raise Violation("c04:refit-differs", {"handle": "part of a structured spec used alone", "path": list(path), "names": part0[0]["names"]})
+                    bump(stats, "probes", "structured_leaf_reproduces_its_training_part")
                 sig.append(["leaf", len(lv)])
                 bump(stats, "probes", "structured_leaf_used_alone")
                 continue
